@@ -153,3 +153,35 @@ theorem Post.orGiveUp {α : Type} {p : PM (Option α)} {err : PM α} {Q : α →
 
 end Aiger
 end Flussab
+
+namespace Flussab
+namespace Aiger
+open PM
+
+theorem run_bufPrefix (n : Nat) (lr : LR) :
+    (bufPrefix n).run lr = if n ≤ lr.v.demanded then (.ok (lr.v.rest.take n), lr)
+      else (.error (.panic "slice beyond scanned data"), lr) := by
+  unfold PM.bufPrefix
+  simp only [run_bind, run_get, View.bufPrefix]
+  by_cases h : n ≤ lr.v.demanded
+  · simp only [h, ↓reduceIte]; rfl
+  · simp only [h, ↓reduceIte]; rfl
+
+theorem run_advance (n : Nat) (lr : LR) :
+    (advance n).run lr = if n ≤ lr.v.demanded then
+        (.ok (), { lr with v := { lr.v with rest := lr.v.rest.drop n, pos := lr.v.pos + n } })
+      else (.error (.panic "advance beyond scanned data"), lr) := by
+  unfold PM.advance
+  simp only [run_bind, run_get, View.advance]
+  by_cases h : n ≤ lr.v.demanded
+  · simp only [h, ↓reduceIte]; rfl
+  · simp only [h, ↓reduceIte]; rfl
+
+theorem run_utf8Unwrap (bs : VBytes) (lr : LR) :
+    (utf8Unwrap bs).run lr = if bs.all (· < 128) then (.ok (), lr)
+      else (.error (.panic "from_utf8().unwrap() on non-ASCII bytes"), lr) := by
+  unfold PM.utf8Unwrap
+  split <;> rfl
+
+end Aiger
+end Flussab
